@@ -167,9 +167,49 @@ pub enum Call {
     Panic(PanicInfo),
 }
 
+/// every public way to obtain a parser: `AisParser::new()` and `AisParser::default()` (which is
+/// also what `mem::take` leaves behind). The harness alternates between them; a replay runs a
+/// history under each.
+static CTOR: std::sync::atomic::AtomicU64 = std::sync::atomic::AtomicU64::new(0);
+
+pub fn make_parser(kind: u64) -> ais::AisParser {
+    if kind % 2 == 0 {
+        ais::AisParser::new()
+    } else {
+        ais::AisParser::default()
+    }
+}
+
+thread_local! {
+    static PINNED: std::cell::Cell<Option<u64>> = std::cell::Cell::new(None);
+}
+
+/// While the returned guard lives, every parser made on this thread comes from the same
+/// constructor: comparisons between twin runs must not mix them.
+pub struct CtorPin(Option<u64>);
+
+pub fn pin_ctor(kind: u64) -> CtorPin {
+    let prev = PINNED.with(|p| p.replace(Some(kind)));
+    CtorPin(prev)
+}
+
+impl Drop for CtorPin {
+    fn drop(&mut self) {
+        let prev = self.0;
+        PINNED.with(|p| p.set(prev));
+    }
+}
+
 impl Parser {
     pub fn new() -> Self {
-        Parser { p: ais::AisParser::new(), poisoned: false }
+        let k = match PINNED.with(|p| p.get()) {
+            Some(k) => k,
+            None => CTOR.fetch_add(1, std::sync::atomic::Ordering::Relaxed),
+        };
+        Parser { p: make_parser(k), poisoned: false }
+    }
+    pub fn with_ctor(kind: u64) -> Self {
+        Parser { p: make_parser(kind), poisoned: false }
     }
     /// opaque state token (Debug rendering; only compared for equality / counted)
     pub fn token(&self) -> String {
